@@ -31,10 +31,16 @@ def run(tier, seed):
     import webauthn
     # ---- authentication ----
     kinds = ["ES256-P256", "RS256", "PS256", "EdDSA"] if quick else list(authsim.KINDS)
-    for kind in kinds:
-        s = authcat.Scn(kind)
-        s.flags = 0x05
+    # (credential kind, how the RP stores the key, flags byte): the stored-key encoding and the other flag bits must not matter
+    configs = [(k, "cose", 0x05) for k in kinds] + [("ES256-P256", "raw-uncompressed-point", 0x01), ("ES256-P256", "raw-uncompressed-point", 0x05), ("ES256-P256", "cose", 0x01)]
+    for kind0, stored_form, fl in configs:
+        kind = kind0 if stored_form == "cose" and fl == 0x05 else f"{kind0}/{stored_form}/flags={fl:#04x}"
+        s = authcat.Scn(kind0)
+        s.flags = fl
         pol, a = s.build()
+        if stored_form != "cose":
+            n = a.cred.pk.public_numbers()
+            pol = impl.AuthPolicy(pol.challenge, pol.rp_id, pol.origin, b"\x04" + n.x.to_bytes(32, "big") + n.y.to_bytes(32, "big"), pol.count, pol.require_uv)
         il, _ = A.run_case(pol, a, "record", "accept", f"auth-baseline/{kind}")
         for part in ("ad", "cdj", "sig"):
             orig = getattr(a, part)
